@@ -66,7 +66,7 @@ class Engine:
     keeps the reference model in step.  Exactly one actor runs at a time, so
     the model update that follows each real operation is atomic with it."""
 
-    def __init__(self, out: Outcome, tr: Trace, mode: str, scn: str) -> None:
+    def __init__(self, out: Outcome, tr: Trace, mode: str, scn: str, manager_form: str = "list") -> None:
         from werkzeug.local import Local
         from werkzeug.local import LocalManager
         from werkzeug.local import LocalStack
@@ -74,7 +74,17 @@ class Engine:
         self.L = Local()
         self.S = LocalStack()
         self.CV: contextvars.ContextVar = contextvars.ContextVar("c18.cv")
-        self.manager = LocalManager([self.L, self.S])
+        # the documented ways to tell a manager what it manages: a list, a single local, or `.locals` filled later
+        if manager_form == "single_then_append":
+            self.manager = LocalManager(self.L)
+            self.manager.locals.append(self.S)
+        elif manager_form in ("append_later", "append_after_middleware"):
+            self.manager = LocalManager()
+            self.manager.locals.append(self.L)
+            if manager_form == "append_later":
+                self.manager.locals.append(self.S)
+        else:
+            self.manager = LocalManager([self.L, self.S])
         self.proxies: list[tuple[int, str, object]] = []
         self.boxes: dict[int, Box] = {}
         self.model: dict[int, CtxModel] = {}
@@ -95,6 +105,8 @@ class Engine:
 
         # one wrapped application serves every request, as in a deployed server
         self.mw = self.manager.make_middleware(app)
+        if manager_form == "append_after_middleware":
+            self.manager.locals.append(self.S)
         self.pending: dict[int, object] = {}  # context -> response iterable of the request in flight there
 
     # -- helpers -----------------------------------------------------------
@@ -255,7 +267,7 @@ class Engine:
                 self.CV.set(int(a2))
                 m.cv = int(a2)
             elif kind == "mkproxy":
-                pk = a1 % 5 if isinstance(a1, int) else 0
+                pk = a1 % 6 if isinstance(a1, int) else 0
                 nm = NAMES[a2 % len(NAMES)] if isinstance(a2, int) else "a"
                 if pk == 0:
                     p = L(nm)
@@ -265,6 +277,8 @@ class Engine:
                     p = S("x")
                 elif pk == 3:
                     p = LocalProxy(self.CV)
+                elif pk == 5:
+                    p = L(nm + ".x") if a2 % 2 else LocalProxy(L, nm + ".x")  # attribute chain below the namespace
                 else:
                     p = LocalProxy(lambda nm=nm: getattr(L, nm))
                 if len(self.proxies) < 8:
@@ -284,6 +298,9 @@ class Engine:
             if nm in m.attrs:
                 return ("bound", m.attrs[nm])
             return ("unbound",) if pk == 0 else ("callable-raises",)
+        if pk == 5:
+            v = m.attrs.get(nm, UNSET)
+            return ("bound-attr", v[1]) if isinstance(v, tuple) else ("unbound",)
         if pk == 1:
             return ("bound", m.stack[-1]) if m.stack else ("unbound",)
         if pk == 2:
@@ -298,7 +315,7 @@ class Engine:
     def proxy_op(self, c: int, m: CtxModel, kind: str, prox, a2) -> None:
         pk, nm, p = prox
         exp = self.expected_binding(m, pk, nm)
-        tag = f"proxy-kind={['local-attr', 'stack-top', 'stack-top-attr', 'contextvar', 'callable'][pk]}"
+        tag = f"proxy-kind={['local-attr', 'stack-top', 'stack-top-attr', 'contextvar', 'callable', 'local-attr-chain'][pk]}"
         if kind == "pmut":
             if self.static_boxes:
                 return
@@ -401,7 +418,7 @@ class LocalsIsolation(Scenario):
             elif k in ("setbox", "pushbox"):
                 ops.append([c, k, rng.randrange(3), rng.randrange(4)])
             elif k == "mkproxy":
-                ops.append([c, k, rng.randrange(5), rng.randrange(3)])
+                ops.append([c, k, rng.randrange(6), rng.randrange(3)])
             elif k in ("pread",):
                 ops.append([c, k, rng.randrange(8), 0])
             else:
@@ -421,8 +438,8 @@ class LocalsIsolation(Scenario):
             for _ in range(rng.choice([0, 0, 1, 2])):
                 ops.insert(rng.randrange(len(ops) + 1), [rng.randrange(nctx), rng.choice(["sleep", "sleep", "cancel"]), rng.randrange(nctx), rng.choice([0, 1, 30])])
         # proxies usually exist from the start (module-level proxies)
-        pre = [[0, "mkproxy", pk, rng.randrange(3)] for pk in rng.sample(range(5), rng.choice([0, 2, 3, 5]))]
-        return {"mode": mode, "roots": roots, "ops": pre + ops, "tape": [rng.choice([0, 0, 1, 1, 2, 3]) for _ in range(rng.choice([0, 30, 120, 400]))]}
+        pre = [[0, "mkproxy", pk, rng.randrange(3)] for pk in rng.sample(range(6), rng.choice([0, 2, 3, 6]))]
+        return {"manager_form": rng.choice(["list", "list", "single_then_append", "append_later", "append_after_middleware"]), "mode": mode, "roots": roots, "ops": pre + ops, "tape": [rng.choice([0, 0, 1, 1, 2, 3]) for _ in range(rng.choice([0, 30, 120, 400]))]}
 
     # ------------------------------------------------------------------
     def execute(self, case: dict) -> Outcome:
@@ -433,7 +450,8 @@ class LocalsIsolation(Scenario):
             mode = "ctxrun"
         roots = max(1, min(4, int(case.get("roots", 2) or 1)))
         ops = [o for o in case.get("ops", []) if isinstance(o, list) and len(o) >= 2 and isinstance(o[0], int) and isinstance(o[1], str)]
-        eng = Engine(out, tr, mode, self.name)
+        mf = case.get("manager_form", "list")
+        eng = Engine(out, tr, mode, self.name, mf if mf in ("list", "single_then_append", "append_later", "append_after_middleware") else "list")
         tape = Tape(case.get("tape"))
         tr.add("mode", mode, "roots", roots, "ops", len(ops))
         interleaving: list = []
